@@ -40,10 +40,11 @@ type PrecLine struct {
 
 // Act describes the semantic action of a rule abstractly (see actions.go).
 type Act struct {
-	Kind  string `json:"kind"`            // "" (no action) | "log" (only logs) | "int" | "str"
-	Args  []int  `json:"args"`            // 1-based rhs positions used
-	Coefs []int  `json:"coefs"`           // constants: Coefs[0] + sum Coefs[i+1]*$Args[i]
-	Abort bool   `json:"abort,omitempty"` // the action panics for some values after assigning $$ (session experiments only)
+	Kind    string `json:"kind"`              // "" (no action) | "log" (only logs) | "int" | "str"
+	Args    []int  `json:"args"`              // 1-based rhs positions used
+	Coefs   []int  `json:"coefs"`             // constants: Coefs[0] + sum Coefs[i+1]*$Args[i]
+	Abort   bool   `json:"abort,omitempty"`   // the action panics for some values after assigning $$ (session experiments only)
+	AbortEq int    `json:"aborteq,omitempty"` // with Abort: panic exactly when $$ equals this value (0: when $$ % 5 == 2)
 }
 
 type Rule struct {
@@ -1018,4 +1019,22 @@ func renameSym(c *Case, from, to string) {
 		delete(c.Types, from)
 		c.Types[to] = t
 	}
+}
+
+// GenSessionProbe: a counter grammar made for C15: the empty rule relies on the zero default of $$, the
+// recursive rule computes $$ and then gives up (panics) at a certain count -- an abandoned parse that leaves
+// whatever the parser keeps between reductions in a used state.
+func GenSessionProbe(r *rand.Rand, id string) *Case {
+	c := &Case{ID: id, Family: "probe", Start: "S", Types: map[string]string{"S": "ia", "L": "ia"}, Valued: true}
+	c.Tokens = []Tok{{Name: "a", Tag: "ib"}, {Name: "b"}}
+	k := 3 + r.Intn(3)
+	c.Rules = []Rule{
+		{Lhs: "S", Rhs: []string{"L", "';'"}, Act: Act{Kind: "int", Args: []int{1}, Coefs: []int{0, 1}}},
+		{Lhs: "L", Rhs: []string{}, Act: Act{Kind: "log"}},
+		{Lhs: "L", Rhs: []string{"L", "a"}, Act: Act{Kind: "int", Args: []int{1}, Coefs: []int{1, 1}, Abort: true, AbortEq: k}},
+	}
+	if r.Intn(2) == 0 {
+		c.Rules = append(c.Rules, Rule{Lhs: "L", Rhs: []string{"L", "b", "L"}, Act: Act{Kind: "int", Args: []int{1, 3}, Coefs: []int{0, 1, 1}}})
+	}
+	return c
 }
